@@ -79,3 +79,30 @@ def SemAt(cond, data, j, source_data=None):
     """What condition `cond` gives for item j of the Data object `data` (natively: by filtering)."""
     return cond._filter(data, False, source_data=source_data).result[j]
 
+
+
+def _part_filter(part, node):
+    try:
+        return part.filter(node)
+    except TypeError:
+        return None
+
+
+def PartApplies(part, node):
+    """The path part applies to the node (it is a container of the part's kind): filtering it does not raise TypeError."""
+    return _part_filter(part, node) is not None
+
+
+def PartVals(part, node):
+    """The children of `node` the part matches, in document order."""
+    return list(_part_filter(part, node).data)
+
+
+def PartKeys(part, node):
+    """Their keys / indices, aligned with PartVals."""
+    return list(_part_filter(part, node).keys)
+
+
+def all_lists(xs):
+    """Every element of the sequence is a list."""
+    return all(isinstance(x, list) for x in xs)
